@@ -137,6 +137,20 @@ def cases_for_invariants(tier):
         d, sql = forms[i % len(forms)]
         follow = prnd.choice(["", f"; insert into tb_z{i} select * from tb_t{i}", f"; insert into tb_z{i} select region, last_region from tb_o{i}", f"; select * from tb_c{i}"])
         out.append({"sql": sql + follow, "dialect": d, "metadata": None, "silent": False, "want": ["inv"], "src": "generated:update_forms"})
+    # tables written from no table at all (a CTE / derived table of constants, a table function), then read - in part - by later statements
+    for i in range(16 if tier == "quick" else 160):
+        forms = [
+            ("ansi", f"insert into tb_w{i} with params as (select 1 as run_id, 'x' as tag) select run_id, tag from params"),
+            ("ansi", f"create table tb_w{i} as select d.run_id, d.tag from (select 1 as run_id, 'x' as tag) d"),
+            ("bigquery", f"insert into tb_w{i} select run_id, 'x' as tag from unnest([1, 2, 3]) as run_id"),
+            ("postgres", f"insert into tb_w{i} select g.run_id, 'x' as tag from generate_series(1, 3) as g(run_id)"),
+            ("non-validating", f"insert into tb_w{i} with params as (select 1 as run_id, 'x' as tag) select run_id, tag from params"),
+            ("sparksql", f"insert into tb_w{i} select d.run_id, d.tag from (select 1 as run_id, 'x' as tag) d"),
+        ]
+        d, sql = forms[i % len(forms)]
+        follow = prnd.choice([f"; insert into tb_v{i} select run_id from tb_w{i}", f"; insert into tb_v{i} select * from tb_w{i}; insert into tb_u{i} select tag from tb_v{i}",
+                              f"; create table tb_v{i} as select w.run_id, s.c from tb_w{i} w join tb_s{i} s on w.run_id = s.k", ""])
+        out.append({"sql": sql + follow, "dialect": d, "metadata": None, "silent": False, "want": ["inv"], "src": "generated:constant_sources"})
     # MERGE in more of its forms: aliased target, several WHEN arms, DELETE arm, INSERT without column list, sub-query / CTE sources
     for i in range(16 if tier == "quick" else 160):
         forms = [
